@@ -411,13 +411,21 @@ def r_flags(prog, tier):
                   'one unconditional `%s` per block' % unparse(creates[0].ast) if one and copy else
                   'creation is not once per block / not a copy of the original node data', construct='split-one',
                   line=B.lineno))
-    want = {'split': 'True', 'head': "%s.data['head']" % sv, (hb or 'head_block'): 'False', 'block_number': '%s + 1' % iv}
+    estart = 0
+    es_ = B.ast.iter.args[1] if len(B.ast.iter.args) > 1 else next((k.value for k in B.ast.iter.keywords if k.arg == 'start'), None)
+    if es_ is not None:
+        estart = es_.value if isinstance(es_, ast.Constant) and isinstance(es_.value, int) else None
+    bn = '%s + %d' % (iv, 1 - estart) if (estart is not None and estart != 1) else iv
+    want = {'split': 'True', 'head': "%s.data['head']" % sv, (hb or 'head_block'): 'False', 'block_number': bn}
     for key, val in sorted(want.items()):
         hit = [d for d in devs if unparse(d.x) == fp and d.keys == [key] and isinstance(d.value, ast.AST)
                and unparse(d.value) == val and cfg.in_every_iteration(B.id, d.node) and cfg.nodes[d.node].loops[-1] == B.id
                and one and cfg.dominates(creates[0].id, d.node)]
         anyk = [d for d in devs if unparse(d.x) == fp and d.keys == [key]]
         vf = True if hit else None
+        if key == 'block_number' and estart is None:
+            hit = []
+            vf = None
         if not hit:
             if not anyk and not prog.opaque_calls(f, [fp.split('[')[0]]):
                 vf = False
@@ -486,7 +494,12 @@ def r_flags(prog, tier):
                and 'trees.Tree(' in unparse(n.ast.value)]
         ok = True if (bool(hit) and bool(cre) and cfg.always_with(cre[0].id, hit[0].node)
                       and cfg.same_loop(cre[0].id, hit[0].node)) else None
-        if ok is None and not [d for d in devs if unparse(d.x) == p and d.keys and 'head' in d.keys] \
+        ctor_args = [x.args[0] for n_ in cre for x in ast.walk(n_.ast.value) if isinstance(x, ast.Call) and x.args
+                     and 'Tree' in unparse(x.func)]
+        from_dict = any(not (isinstance(a_, ast.Attribute) and a_.attr == 'data') for a_ in ctor_args)
+        if ok is None and from_dict:
+            ok = None           # the node is built from a prepared data dictionary: its head entry is set there, if at all
+        elif ok is None and not [d for d in devs if unparse(d.x) == p and d.keys and 'head' in d.keys] \
                 and not prog.opaque_calls(f, [p.split('[')[0].split('.')[0]]):
             ok = False
         elif ok is None and hit and cre and not cfg.always_with(cre[0].id, hit[0].node):
